@@ -148,6 +148,8 @@ pub struct Module {
     /// a non-main module whose check function is itself called `start` (as the project's own
     /// test files do): only the main file's `start` is the program's entry point
     pub own_start: bool,
+    /// lines placed at the start of the check function (before the use sites), e.g. a local in a dead scope
+    pub pre_body: Vec<String>,
     /// a module file that holds nothing at all (a split in which one file got no globals): its whole text
     pub blank: Option<String>,
 }
@@ -294,6 +296,9 @@ fn render_module(m: &Module, is_main: bool) -> String {
     s.push_str(if is_main || m.own_start { "start :: fn do\n" } else { "zchk :: fn do\n" });
     // a marker that identifies this function in the emitted Lua
     s.push_str(&format!("    zmark := \"{}\"\n    zmark <=> \"{}\"\n", marker_of(&m.rel), marker_of(&m.rel)));
+    for l in &m.pre_body {
+        s.push_str(&format!("    {}\n", l));
+    }
     for (k, u) in m.uses.iter().enumerate() {
         match &u.ty {
             Ty::Blob(_, _, field) => {
@@ -418,6 +423,12 @@ fn specs_for(modules: &[Module], f: usize, t: usize) -> Vec<(String, &'static st
 }
 
 pub fn generate(seed: u64) -> Project {
+    generate_with(seed, false)
+}
+
+/// `with_std`: the project will be compiled with the standard library bundled, so a module may import a
+/// standard module under an alias and still use its standard name (which the preamble binds in every file).
+pub fn generate_with(seed: u64, with_std: bool) -> Project {
     let mut r = Rng::sub(seed, "project");
     let mut features: BTreeSet<&'static str> = BTreeSet::new();
 
@@ -431,6 +442,7 @@ pub fn generate(seed: u64) -> Project {
         raw_body: vec![],
         raw_top: vec![],
         own_start: false,
+        pre_body: vec![],
         blank: None,
     }];
     let mut used_paths: BTreeSet<String> = BTreeSet::new();
@@ -457,7 +469,7 @@ pub fn generate(seed: u64) -> Project {
             } else {
                 None
             };
-            modules.push(Module { rel, globals: vec![], imports: vec![], uses: vec![], raw_body: vec![], raw_top: vec![], own_start: own_start && blank.is_none(), blank });
+            modules.push(Module { rel, globals: vec![], imports: vec![], uses: vec![], raw_body: vec![], raw_top: vec![], own_start: own_start && blank.is_none(), pre_body: vec![], blank });
         }
     }
 
@@ -666,6 +678,25 @@ pub fn generate(seed: u64) -> Project {
         }
         r.shuffle(&mut uses);
         modules[f].uses = uses;
+        // lexical scoping meets namespaces: a local named like a namespace, alive only inside a branch
+        if r.chance(1, 6) {
+            if let Some(ns) = b.ns.keys().next() {
+                modules[f].pre_body.push(format!("if true do\n        {} := \"a local in a scope that ends here\"\n    end", ns));
+                features.insert("local_named_like_a_namespace_in_an_inner_scope");
+            }
+        }
+    }
+
+    // ---- a standard module imported under an alias next to its standard name
+    if with_std && Rng::sub(seed, "std-alias").chance(1, 5) {
+        let f = Rng::sub(seed, "std-alias-file").below(modules.len());
+        if modules[f].blank.is_none() {
+            modules[f].raw_top.push("use math as zmath".to_string());
+            modules[f].pre_body.push("zpi1: float = zmath.pi".to_string());
+            modules[f].pre_body.push("zpi2: float = math.pi".to_string());
+            modules[f].pre_body.push("zpi3: float = math.sqrt(4.0)".to_string());
+            features.insert("std_module_under_an_alias");
+        }
     }
 
     // ---- twin folder: a second folder holding files with the same names, some byte-identical to their
